@@ -424,6 +424,14 @@ func (u *Unmarshaler) generateMap(keyType, elemType reflect.Type, mapValue any) 
 					return emptyValue, errTypeMismatch
 				}
 
+				// 同种类但不同的类型（如 int 与 type N int）不可直接赋值，需要转换（同种类转换无损）
+				if !keythValue.Type().AssignableTo(elemType) {
+					if !keythValue.Type().ConvertibleTo(elemType) {
+						return emptyValue, errTypeMismatch
+					}
+					keythValue = keythValue.Convert(elemType)
+				}
+
 				targetValue.SetMapIndex(key, keythValue)
 				continue
 			}
